@@ -17,6 +17,7 @@ impl<const SIZE: usize> MemBuilder for Stack<SIZE>{
 
     #[inline]
     fn build(&mut self, element_layout: Layout) -> StackMem<SIZE> {
+        assert!(element_layout.align() <= MAX_ALIGN, "Unsupported alignment!");
         let size =
             if element_layout.size() == 0{
                 usize::MAX
@@ -25,15 +26,20 @@ impl<const SIZE: usize> MemBuilder for Stack<SIZE>{
             };
 
         StackMem{
-            mem: MaybeUninit::uninit(),
+            mem: AlignedBytes(MaybeUninit::uninit()),
             element_layout,
             size
         }
     }
 }
 
+/// Inline bytes, aligned for any element with alignment up to [`MAX_ALIGN`].
+#[repr(align(64))]
+pub(super) struct AlignedBytes<const SIZE: usize>(pub(super) MaybeUninit<[u8; SIZE]>);
+pub(super) const MAX_ALIGN: usize = 64;
+
 pub struct StackMem<const SIZE: usize>{
-    mem: MaybeUninit<[u8; SIZE]>,
+    mem: AlignedBytes<SIZE>,
     element_layout: Layout,
     size: usize
 }
@@ -41,12 +47,12 @@ pub struct StackMem<const SIZE: usize>{
 impl<const SIZE: usize> Mem for StackMem<SIZE>{
     #[inline]
     fn as_ptr(&self) -> *const u8 {
-        self.mem.as_ptr() as *const u8
+        self.mem.0.as_ptr() as *const u8
     }
 
     #[inline]
     fn as_mut_ptr(&mut self) -> *mut u8 {
-        self.mem.as_mut_ptr() as *mut u8
+        self.mem.0.as_mut_ptr() as *mut u8
     }
 
     #[inline]
